@@ -301,27 +301,53 @@ example : (gmpFprintfModel false { failAt := some 3 } [97, 98] 0 10 12345 [99]).
 
 /-! ## Text streams -/
 
-/-- `str_stream_roundtrip_partial`: for every integer `x`, every documented base except 0
-    (2..62, and −36..−2 read back with |base|), whatever follows in the stream (`rest` empty or starting
-    with a character that is not a digit of the base), `mpz_inp_str` reads back exactly what
-    `mpz_out_str` wrote: same value, same byte count, and it leaves the stream at `rest`.
-    PARTIAL: the full statement also covers base 0 (output in base 10, input with prefix detection),
-    `mpq_out_str`/`mpq_inp_str` (numerator "/" denominator) and `mpf_out_str`/`mpf_inp_str`; for those
-    the models are tied to the library by the round-trip ops of the correspondence run only
-    (mpf digit generation/parsing is not modelled at all: C06/C13). -/
+/-- `str_stream_roundtrip_partial`: for every documented base except 0 (2..62, and −36..−2 read back with
+    |base|) and whatever follows in the stream (`rest` empty or starting with a character that is not a
+    digit of the base, resp. with white space for mpf):
+    (z) `mpz_inp_str` reads back exactly what `mpz_out_str` wrote for every integer `x`: same value, same
+        byte count, stream left at `rest`;
+    (q) `mpq_inp_str` reads back exactly the raw fields `num`, `den` that `mpq_out_str` wrote (any integers:
+        neither side canonicalises), same byte count, provided `rest` does not start with '/';
+    (f) `mpf_inp_str` hands to `mpf_set_str` exactly the text `mpf_out_str` wrote (sign, "0.", the digits
+        returned by `mpf_get_str`, 'e' or '@' chosen on |base|, decimal exponent) and counts the same bytes.
+    PARTIAL: base 0 (output in base 10, input with prefix detection) is not covered, and for mpf only the
+    stream level is: digit generation and parsing (`mpf_get_str`, `mpf_set_str`) are not modelled
+    (C06/C13), so equality of the mpf VALUE is checked by the round-trip ops of the correspondence run only. -/
 theorem str_stream_roundtrip_partial (base : Int) (hb : (2 ≤ base ∧ base ≤ 62) ∨ (-36 ≤ base ∧ base ≤ -2))
-    (x dest : Int) (rest : List Nat)
+    (rest : List Nat)
     (hrest : ∀ c, rest.head? = some c → digitValue (decide ((base.natAbs : Int) > 36)) c ≥ base.natAbs) :
-    mpz_inp_str_rd dest ((mpz_out_str {} base x).2.out ++ rest) (base.natAbs : Int)
-      = ((mpz_out_str {} base x).1, x, rest) := by
-  obtain ⟨e1, e2⟩ := mpz_out_str_text base x
-  rw [e1, e2]
-  exact mpz_text_roundtrip base hb x dest rest hrest
+    (∀ x dest : Int,
+      mpz_inp_str_rd dest ((mpz_out_str {} base x).2.out ++ rest) (base.natAbs : Int)
+        = ((mpz_out_str {} base x).1, x, rest)) ∧
+    (rest.head? ≠ some 47 → ∀ (num den : Int) (q : Int × Int),
+      mpq_inp_str_rd q ((mpq_out_str {} base num den).2.out ++ rest) (base.natAbs : Int)
+        = ((mpq_out_str {} base num den).1, (num, den), rest)) ∧
+    (∀ (str : List Nat) (exp : Int) (ws : List Nat), (∀ e ∈ str, isspace e = false) →
+      (∀ c, ws.head? = some c → isspace c = true) →
+      mpf_inp_str_scan ((mpf_out_str {} base str exp).2.out ++ ws)
+        = ((mpf_out_str {} base str exp).2.out, ((mpf_out_str {} base str exp).1).toNat, ws)) := by
+  refine ⟨?_, ?_, ?_⟩
+  · intro x dest
+    obtain ⟨e1, e2⟩ := mpz_out_str_text base x
+    rw [e1, e2]
+    exact mpz_text_roundtrip base hb x dest rest hrest
+  · intro hs num den q
+    obtain ⟨e1, e2⟩ := mpq_out_str_text base num den
+    rw [e1, e2]
+    exact mpq_text_roundtrip base hb num den q rest hrest hs
+  · intro str exp ws hstr hws
+    obtain ⟨e1, e2⟩ := mpf_out_str_text base str exp
+    rw [e1, e2]
+    simpa using mpf_text_scan base str exp hstr ws hws
 
 -- non-vacuity: base 62 and base -16, followed by a newline / a slash
 example : mpz_inp_str_rd 0 ((mpz_out_str {} 62 (-123456789)).2.out ++ [10]) 62 = (6, -123456789, [10]) := by decide +kernel
 example : (mpz_out_str {} (-16) 48879).2.out = [66, 69, 69, 70] ∧
     mpz_inp_str_rd 0 ([66, 69, 69, 70] ++ [47, 49]) 16 = (4, 48879, [47, 49]) := by decide +kernel
+-- "-22/7" followed by a blank; "-0.1235e3" followed by a newline
+example : mpq_inp_str_rd (0, 1) ((mpq_out_str {} 10 (-22) 7).2.out ++ [32]) 10 = (5, (-22, 7), [32]) := by decide +kernel
+example : mpf_inp_str_scan ((mpf_out_str {} 10 [45, 49, 50, 51, 53] 3).2.out ++ [10])
+    = ([45, 48, 46, 49, 50, 51, 53, 101, 51], 9, [10]) := by decide +kernel
 
 
 end Mpir.Io
